@@ -2,9 +2,12 @@ package verifsim
 
 import (
 	"bytes"
+	"context"
 	"fmt"
 	"math/rand/v2"
 	"time"
+
+	dtls "github.com/pion/dtls/v3"
 )
 
 // C06: anti-replay. No payload delivered twice; a record fewer than W sequence
@@ -17,6 +20,9 @@ type C06Params struct {
 	Arrival []int  `json:"arrival"` // indices into the K captured records, with repetition
 	Size    int    `json:"size,omitempty"`
 	Enum    string `json:"enum,omitempty"`
+	// Updates (DTLS 1.3 only): after the arrival sequence the sender updates its keys this many
+	// times, then every record that was accepted is presented once more
+	Updates int `json:"updates,omitempty"`
 }
 
 var c06Windows = []int{1, 2, 3, 64}
@@ -80,6 +86,9 @@ func c06Gen(r *rand.Rand, tier string, idx int) any {
 		p.K = 100 + r.IntN(300)
 	}
 	p.Size = []int{0, 1, 16, 100, 1000}[r.IntN(5)]
+	if c, _ := dataCfgByName(p.Cfg); c.C.MaxVer == 13 && r.IntN(2) == 0 {
+		p.Updates = 1 + r.IntN(3)
+	}
 	// arrival: identity with displaced and duplicated records, displacement around W
 	type slot struct {
 		pos float64
@@ -212,6 +221,45 @@ func c06Run(rc *RunCtx, params any) {
 				latest = a
 			}
 		}
+	}
+	if p.Updates > 0 && cfg.C.MaxVer == 13 {
+		n.Capture = nil
+		for u := 0; u < p.Updates; u++ {
+			done := false
+			var uerr error
+			s.Go("c-update", func() {
+				ctx, cancel := context.WithTimeout(context.Background(), time.Minute)
+				defer cancel()
+				uerr = pair.Client.UpdateKeys(ctx, dtls.KeyUpdateOptions{})
+				done = true
+			})
+			s.Run(func() bool { return done }, 2*time.Minute)
+			if !done || uerr != nil {
+				rc.Note("update-failed", fmt.Sprint(uerr))
+
+				break
+			}
+			s.Fault("sender-key-update")
+			s.Run(func() bool { return false }, 500*time.Millisecond)
+		}
+		for a := range accepted {
+			if !accepted[a] {
+				continue
+			}
+			before := len(rd.Got)
+			n.InjectNow(pair.CAddr, pair.SAddr, append([]byte(nil), n.Captured[a].Data...))
+			s.Settle()
+			if len(rd.Got) != before {
+				sig := "replayed:after-key-update"
+				if p.W%64 >= 33 {
+					sig = c06ReplaySig(p.W) // the window itself forgets early for these sizes (F17)
+				}
+				rc.Violate(sig, "record %d, delivered before, was delivered again when its datagram was replayed after %d key update(s) of the sender", a, p.Updates)
+
+				return
+			}
+		}
+		s.Probe("replay-after-key-update-rejected")
 	}
 	for i, d := range delivered {
 		if d > 1 {
